@@ -604,6 +604,7 @@ def advanceHeadFront : Nat → List Key → M (List Key)
         -- `head.position += 1` is outside the try block
         setHeadPos k (hd.pos + 1)
       if (← getInst f).status = .waiting then setFlowStatus f .starting
+      let flowIsStarting : Bool := (← getInst f).status = .starting
       let mut flowFinished := false
       let mut flowAborted := false
       -- first part of the try block: slide and advance the forked heads
@@ -676,7 +677,11 @@ def advanceHeadFront : Nat → List Key → M (List Key)
         flowAborted := true
       | none => pure ()
       if flowFinished then finishFlow fuel f (← headScores k) false
-      else if flowAborted then abortFlow fuel f (← headScores k) false
+      else if flowAborted then
+        -- an activated flow that failed before it was started is not restarted
+        if flowIsStarting && (← getInstX f).activated > 0 then
+          modInstX f fun x => { x with newInstanceStarted := true }
+        abortFlow fuel f (← headScores k) false
     -- keep only heads that still exist and are not INACTIVE
     let ix ← getIx
     return actionable.filter fun k =>
